@@ -149,7 +149,14 @@ def _worker(case):
             # (non-identity links: the linear predictor is dimensionless and an absolute change of 1e-6 per row is a
             # relative change of 1e-6 of the mean: |eta| = |z| = 0 (y = mu at eta = 0) is an exact, not a tiny, scale)
             lp_floor = 0.0 if link == 'identity' else float(np.sqrt(max(int(np.sum(keep)), 1)))
-            res['lp_scale'] = float(max(np.linalg.norm(eta), np.linalg.norm(np.where(keep, z, 0.0)), lp_floor) + 1e-300)
+            # |z| is measured in the working metric, relative to the largest working weight: a row whose working weight
+            # is negligible (normal / log with mu ~ 1e-8 next to y ~ 1e4: z ~ 1e12) must not set the scale
+            sw = np.sqrt(np.where(keep, np.abs(wk / (V * g * g)), 0.0))
+            swmax = float(sw.max()) if sw.size else 0.0
+            zw = float(np.linalg.norm(np.where(keep, sw * z, 0.0)) / swmax) if swmax > 0 and np.isfinite(swmax) else 0.0
+            if not np.isfinite(zw):
+                zw = 0.0
+            res['lp_scale'] = float(max(np.linalg.norm(eta), zw, lp_floor) + 1e-300)
             res['rhs_norm'] = float(np.linalg.norm(rhs))
             res['rhs_abs_norm'] = float(np.linalg.norm(np.abs(B).T @ np.where(keep, np.abs(wk / (V * g * g) * z), 0.0)))
         with np.errstate(all='ignore'):
